@@ -29,7 +29,8 @@ class C13(Prop):
                 opt = rng.choice(['.+specials', '.+spans', '.+specials +spans', '.-macros +specials', '.k1 +spans', '.+macros'])
                 blk = rng.choice(['<div>x *y* &z</div>', '<div>\n<p>a <b>b</b></p>\n</div>', '<!-- c *d* -->', '<hr>', '<p class="c">t & u</p>\n'])
                 src = '%s\n\n%s\n%s\n\n%s <i>%s</i>' % (plain(rng), opt, blk, plain(rng), plain(rng, 1, 1))
-                yield {'src': src, 'high': rng.choice([0, 8, 0, 8, 4])}
+                # one sentinel for the block, one each for the two inline tags
+                yield {'src': src, 'high': rng.choice([0, 8, 0, 8, 4]), 'sentinels': 3}
                 continue
             src = hostile_source(rng, ctx.repo) if rng.random() < 0.6 else clean(gen.any_source(rng, ctx.repo))
             if SENTINEL in src:
@@ -47,6 +48,10 @@ class C13(Prop):
             outs[pol] = o[0][1]
         res.oracle_checks += 1
         segs = nonl(outs[2]).split(SENTINEL)
+        if case.get('sentinels') is not None and len(segs) - 1 != case['sentinels']:
+            res.violation('the replace policy put %d replacement texts where the source has %d HTML elements' % (len(segs) - 1, case['sentinels']),
+                          case, {'replace': outs[2]})
+            return
         if nonl(outs[1]) != ''.join(segs):
             res.violation('drop and replace policies differ beyond the HTML elements', case, {'drop': outs[1], 'replace': outs[2]})
             return
